@@ -109,6 +109,15 @@ pub fn converters() -> Vec<Conv> {
     });
     conv!(v, "QueueRange::song", c::Queue::song(SongId(1)), |r| dbg(&r));
     conv!(v, "QueueRange::range", c::QueueRange::range(SongPosition(1)..), |r| dbg(&r));
+    // the same decoders behind requests with parameters at the top of their domain: what the caller asked for (a
+    // huge range or window, an offset near the maximum) must not make the conversion of the REPLY panic
+    conv!(v, "QueueRange::range(5..=MAX)", c::QueueRange::range(SongPosition(5)..=SongPosition(usize::MAX)), |r| dbg(&r));
+    conv!(v, "QueueRange::range(..MAX)", c::QueueRange::range(..SongPosition(usize::MAX)), |r| dbg(&r));
+    conv!(v, "QueueRange::range(7..3)", c::QueueRange::range(SongPosition(7)..SongPosition(3)), |r| dbg(&r));
+    conv!(v, "Find::window(..MAX)", c::Find::new(filter()).window(..usize::MAX), |r| walk_songs(&r));
+    conv!(v, "Find::window(MAX-1..=MAX)", c::Find::new(filter()).window(usize::MAX - 1..=usize::MAX), |r| walk_songs(&r));
+    conv!(v, "AlbumArt::offset(MAX)", c::AlbumArt::new("u").offset(usize::MAX), |r| dbg(&r));
+    conv!(v, "AlbumArtEmbedded::offset(MAX)", c::AlbumArtEmbedded::new("u").offset(usize::MAX), |r| dbg(&r));
     conv!(v, "CurrentSong", c::CurrentSong, |r| dbg(&r));
     conv!(v, "GetPlaylists", c::GetPlaylists, |r| {
         dbg(&r);
@@ -424,53 +433,27 @@ impl Property for C12 {
         true
     }
     fn cases(&self, cfg: &Cfg) -> u64 {
-        cfg.tier.pick(4_000, 120_000)
+        cfg.tier.pick(6_000, 130_000)
     }
     fn run_case(&self, cfg: &Cfg, i: u64, acc: &mut Acc) {
         let mut r = Rng::keyed(&[cfg.seed, 12, i]);
         if cfg!(feature = "chrono") {
             acc.inc("evaluations_chrono_build");
         }
-        if i % 100 == 7 {
-            self.typed_lists(acc, i, &mut r);
-            return;
-        }
-        if i % 400 == 57 {
-            // very long replies (a big library) converted and walked on a thread with a SMALL stack (256 KiB, a quarter of
-            // what a spawned thread gets by default): work proportional to the number of lines must not live on the stack
-            let n = 20_000 + r.below(20_000);
-            let key = *r.pick(&["Artist", "Album", "Title", "file", "changed", "sticker", "channel", "playlist", "directory", "tagtype", "x-unknown"]);
-            let other = *r.pick(&["Album", "Date", "Last-Modified", "message", "Genre"]);
-            let fields: Vec<(String, String)> = (0..n).map(|k| if k % 7_001 == 7_000 { kv(other, "2020-06-12T17:53:00Z") } else { kv(key, format!("v{}", if key == "sticker" { format!("a=b{}", k) } else { k.to_string() })) }).collect();
-            let Ok(frame) = frame_of(&fields, None) else { return };
-            acc.inc("long_replies_on_a_small_stack");
-            let t = std::thread::Builder::new().stack_size(256 << 10).spawn(move || {
-                let mut done = 0u64;
-                for (_, conv) in converters() {
-                    let _ = conv(frame.clone());
-                    done += 1;
-                }
-                done
-            });
-            match t.map(|h| h.join()) {
-                Ok(Ok(k)) => {
-                    acc.count("evaluations", k);
-                    acc.count("conversions", k);
-                }
-                Ok(Err(_)) => acc.violation(i, None, format!("panic while converting / walking a reply of {} `{}` lines on a small stack: {}", n, key, panics::take_last().unwrap_or_default()), J::obj().set("key", key).set("lines", n)),
-                Err(e) => acc.inconclusive(format!("cannot spawn the small-stack thread: {}", e)),
-            }
-            return;
-        }
-        let grid_blocks = (KINDS.len() * 4) as u64;
-        if i < grid_blocks && i % 100 != 7 {
+        // (one case per (reply, field): 24 cases share one generated reply, so that the work spreads over the workers)
+        let grid_blocks = (KINDS.len() * cfg.tier.pick(4, 8)) as u64 * 24;
+        if i < grid_blocks {
+            let gi = i / 24;
+            let mut r = Rng::keyed(&[cfg.seed, 12, gi]);
             // directed grid: in a well-formed reply of each kind, EVERY field in turn gets EVERY value of the
             // edge set (so that each parsed field meets each hostile value at least once), all converters
             let convs = converters();
-            let kind = KINDS[(i as usize) % KINDS.len()];
+            let kind = KINDS[(gi as usize) % KINDS.len()];
             let (fields, binary) = source(&mut r, kind);
-            acc.inc("edge_grid_replies");
-            for p in 0..fields.len().min(24) {
+            if i % 24 == 0 {
+                acc.inc("edge_grid_replies");
+            }
+            for p in (i % 24) as usize..fields.len().min((i % 24) as usize + 1) {
                 for (edge_no, edge) in VALUE_EDGES.iter().enumerate() {
                     let mut f = fields.clone();
                     if f[p].0 == "binary" {
@@ -525,6 +508,37 @@ impl Property for C12 {
                         }
                     }
                 }
+            }
+            return;
+        }
+        if i % 100 == 7 {
+            self.typed_lists(acc, i, &mut r);
+            return;
+        }
+        if i % cfg.tier.pick(1000, 400) == 57 {
+            // very long replies (a big library) converted and walked on a thread with a SMALL stack (256 KiB, a quarter of
+            // what a spawned thread gets by default): work proportional to the number of lines must not live on the stack
+            let n = 20_000 + r.below(20_000);
+            let key = *r.pick(&["Artist", "Album", "Title", "file", "changed", "sticker", "channel", "playlist", "directory", "tagtype", "x-unknown"]);
+            let other = *r.pick(&["Album", "Date", "Last-Modified", "message", "Genre"]);
+            let fields: Vec<(String, String)> = (0..n).map(|k| if k % 7_001 == 7_000 { kv(other, "2020-06-12T17:53:00Z") } else { kv(key, format!("v{}", if key == "sticker" { format!("a=b{}", k) } else { k.to_string() })) }).collect();
+            let Ok(frame) = frame_of(&fields, None) else { return };
+            acc.inc("long_replies_on_a_small_stack");
+            let t = std::thread::Builder::new().stack_size(256 << 10).spawn(move || {
+                let mut done = 0u64;
+                for (_, conv) in converters() {
+                    let _ = conv(frame.clone());
+                    done += 1;
+                }
+                done
+            });
+            match t.map(|h| h.join()) {
+                Ok(Ok(k)) => {
+                    acc.count("evaluations", k);
+                    acc.count("conversions", k);
+                }
+                Ok(Err(_)) => acc.violation(i, None, format!("panic while converting / walking a reply of {} `{}` lines on a small stack: {}", n, key, panics::take_last().unwrap_or_default()), J::obj().set("key", key).set("lines", n)),
+                Err(e) => acc.inconclusive(format!("cannot spawn the small-stack thread: {}", e)),
             }
             return;
         }
@@ -585,7 +599,7 @@ impl Property for C12 {
     fn meta(&self, _cfg: &Cfg, _acc: &Acc) -> Meta {
         Meta {
             level: "exploration",
-            rule: "directed grid: in a well-formed reply of each of 21 kinds every field in turn gets every value of the edge set (now ~115 entries incl. ranges whose end precedes their start and sticker values repeating the requested name without `=`), once as is and once with every line of one other key (rotating; Time+duration together) taken out; random part: frames are produced by the real parser from 21 kinds of well-formed replies (status, stats, count, grouped count, list, grouped list, listplaylists, sticker get/list/find, channels, readmessages, tagtypes, update, replay gain, addid, database and queue listings, album art with binary, empty, idle) with 0-3 mutations (drop/duplicate/reorder fields, drop every line of one key, foreign keys, values from a 70-entry edge set: 2^64, 1e309, NaN, inf, negative, ranges, '=', RFC 3339 garbage, 300-digit numbers), binary toggled; EVERY one of the 66 predefined command/constructor families converts every frame under catch_unwind inside child processes and the result is walked (Debug, Clone, ==, every iterator and accessor of List/Song/Timestamp/sticker types, error Display/source chain); typed lists: tuples of every arity 1-8 and Vec lengths 0-5 against frame counts 0..=n+2; default and chrono build; non-trivial = (command, frame) pair where the frame is not the command's own unmutated reply; distinct by (command, frame fields)".into(),
+            rule: "directed grid: in a well-formed reply of each of 21 kinds every field in turn gets every value of the edge set (now ~115 entries incl. ranges whose end precedes their start and sticker values repeating the requested name without `=`), once as is and once with every line of one other key (rotating; Time+duration together) taken out; random part: frames are produced by the real parser from 21 kinds of well-formed replies (status, stats, count, grouped count, list, grouped list, listplaylists, sticker get/list/find, channels, readmessages, tagtypes, update, replay gain, addid, database and queue listings, album art with binary, empty, idle) with 0-3 mutations (drop/duplicate/reorder fields, drop every line of one key, foreign keys, values from a 70-entry edge set: 2^64, 1e309, NaN, inf, negative, ranges, '=', RFC 3339 garbage, 300-digit numbers), binary toggled; EVERY one of the 66 predefined command/constructor families (plus seven of them again with request parameters at the top of their domain: ranges and windows up to usize::MAX, inverted ranges, offsets of usize::MAX) converts every frame under catch_unwind inside child processes and the result is walked (Debug, Clone, ==, every iterator and accessor of List/Song/Timestamp/sticker types, error Display/source chain); typed lists: tuples of every arity 1-8 and Vec lengths 0-5 against frame counts 0..=n+2; default and chrono build; non-trivial = (command, frame) pair where the frame is not the command's own unmutated reply; distinct by (command, frame fields)".into(),
             nontrivial_set: "nontrivial",
             assumptions: vec![
                 "frames can only be made by the real parser, so field names outside its alphabet [A-Za-z_-] cannot reach the typed layer today; such replies are counted as refused by the protocol layer".into(),
